@@ -10,10 +10,13 @@ Property theorems only.  Model: `Infretis/Model/Vel.lean` (mirrors
 `sqrt` and the Gaussian stay outside the model: `sig` are the square roots numpy delivered
 (hypothesis `sigᵢ² = σᵢ²` where needed), `z` the standard normals.
 
-Findings re-established on the real ASE engine (see `harness/props/c16.py`):
-* `C16:ase:kin-before-stationary` — `kin_new` is taken before `Stationary`,
-* `C16:ase:global-rng` — the draw uses numpy's global state, not the engine's `rgen`.
-Both are `Variant` switches of the model: `asIs` mirrors the code, `repaired` a fix.
+Findings established on the real ASE engine and repaired in /repo by commit 1dd0318:
+* `C16:ase:kin-before-stationary` — `kin_new` was taken before `Stationary`,
+* `C16:ase:global-rng` — the draw used numpy's global state, not the engine's `rgen`.
+Both are `Variant` switches of the model: `asIs` mirrors the code before the fix (its
+counterexamples stay here as the record), `repaired` = `codeVariant` mirrors the code now; the
+headline theorems `dek_consistent_all`, `kinNew_consistent_all`, `request_on_engine_stream_all`
+hold for all five engines with `codeVariant`.
 -/
 namespace Infretis.C16
 open Infretis.Vel
@@ -320,6 +323,47 @@ theorem dek_consistent_ase_partial (vk vr : Variant) (s : Setup) (src : Frame) (
 
 example : zeroMomentumFlag .ase none = false := by decide
 
+/-- **kin_new, all five engines (code as it is now).** -/
+theorem kinNew_consistent_all (vr : Variant) (s : Setup) (src : Frame) (e : Option Rat)
+    (zm : Option Bool) (sig : List Rat) (z : List (List Rat)) :
+    (modifyVelocities codeVariant vr s src e zm sig z).kinNew
+      = kineticEnergy (mass s) (modifyVelocities codeVariant vr s src e zm sig z).frame.vel := by
+  cases hs : s.engine
+  case ase =>
+    have := (dek_consistent_ase_partial codeVariant vr s src e zm sig z hs (Or.inl rfl)).1
+    simpa [mass, hs] using this
+  all_goals exact kinNew_consistent _ _ _ _ _ _ _ _ (by simp [hs])
+
+/-- **dek, all five engines (code as it is now).** `dek` is the kinetic energy of the written
+    velocities minus the old one — the frame's recomputed energy, or `system.ekin` for GROMACS —
+    and `inf` exactly when the old one is zero (GROMACS: `None`). -/
+theorem dek_consistent_all (vr : Variant) (s : Setup) (src : Frame) (e : Option Rat)
+    (zm : Option Bool) (sig : List Rat) (z : List (List Rat)) :
+    (modifyVelocities codeVariant vr s src e zm sig z).dek =
+      if s.engine = .gromacs then
+        (match e with
+         | none => Dek.inf
+         | some k => Dek.val (kineticEnergy (mass s)
+                        (modifyVelocities codeVariant vr s src e zm sig z).frame.vel - k))
+      else if kineticEnergy (mass s) src.vel = 0 then Dek.inf
+      else Dek.val (kineticEnergy (mass s) (modifyVelocities codeVariant vr s src e zm sig z).frame.vel
+                      - kineticEnergy (mass s) src.vel) := by
+  cases hs : s.engine
+  case gromacs =>
+    simp only [if_true]
+    exact dek_consistent_gromacs _ _ _ _ _ _ _ _ hs
+  case ase =>
+    have := (dek_consistent_ase_partial codeVariant vr s src e zm sig z hs (Or.inl rfl)).2
+    simpa [mass, hs] using this
+  all_goals
+    have := dek_consistent codeVariant vr s src e zm sig z (by simp [hs]) (by simp [hs])
+    simpa [hs] using this
+
+example : (modifyVelocities codeVariant codeVariant aseWitnessSetup aseWitnessSrc none (some true) [1, 1]
+    [[1, 0], [0, 0], [0, 0]]).kinNew = 1 / 4 := by
+  norm_num [modifyVelocities, modifyAse, codeVariant, aseWitnessSetup, aseWitnessSrc, kineticEnergy, kinCol, dot,
+    mulCol, divCol, sumL, drawVel, zeroMomentumFlag, resetMomentum, resetCol]
+
 /-! ## 5. only velocities change -/
 
 /-- **Positions, box, identities.** The written frame has the source frame's positions and atom
@@ -440,5 +484,20 @@ theorem request_on_engine_stream_partial (vk vr : Variant) (s : Setup) (src : Fr
 
 example : (⟨.lammps, 300, 1, [1, 2], []⟩ : Setup).engine ≠ .ase ∨ Variant.asIs = Variant.repaired :=
   Or.inl (by decide)
+
+/-- **Request, all five engines (code as it is now).** The single draw request of
+    `modify_velocities` is on the engine's own `rgen`, with location 0: `normal` with the
+    per-particle scale for GROMACS/CP2K/LAMMPS/TurtleMD, `standard_normal((npart, 3))` for ASE. -/
+theorem request_on_engine_stream_all (vk : Variant) (s : Setup) (src : Frame) (e : Option Rat)
+    (zm : Option Bool) (sig : List Rat) (z : List (List Rat)) :
+    (modifyVelocities vk codeVariant s src e zm sig z).request.stream = .engineRgen
+    ∧ (modifyVelocities vk codeVariant s src e zm sig z).request.loc = 0
+    ∧ (modifyVelocities vk codeVariant s src e zm sig z).request.method
+        = (if s.engine = .ase then "standard_normal" else "normal") := by
+  refine ⟨request_on_engine_stream_partial vk codeVariant s src e zm sig z (Or.inr rfl), ?_, ?_⟩
+  all_goals cases hs : s.engine <;> simp [modifyVelocities, modifyNumpy, modifyAse, hs]
+
+example : (modifyVelocities .asIs codeVariant aseWitnessSetup aseWitnessSrc none none [1, 1] []).request.stream
+    = Stream.engineRgen := rfl
 
 end Infretis.C16
